@@ -127,8 +127,12 @@ func (info *NodeInfo) DecodeJSON(b []byte, enc encoder.Encoder) error {
 
 	params := isaac.NewParams(info.networkID)
 
-	if err := encoder.Decode(enc, u.Local.LocalParams, params); err != nil {
-		return e.Wrap(err)
+	// NOTE Params is registered in the encoders as a pointer instance (&isaac.Params{}); hint based
+	// decoding returns *isaac.Params, which can not be set into isaac.Params. Unmarshal directly.
+	if !util.IsNilJSON(u.Local.LocalParams) {
+		if err := enc.Unmarshal(u.Local.LocalParams, params); err != nil {
+			return e.Wrap(err)
+		}
 	}
 
 	if err := params.SetNetworkID(info.networkID); err != nil {
